@@ -171,9 +171,23 @@ def mk_tuple(items):
     return ("tuple", tuple(items))
 
 
+def mk_cmp(op, a, b):
+    """comparison term; == and != are symmetric, so their operands are put in a canonical order (constants / the empty tuple on the right, otherwise by repr):
+    `a == b` and `b == a` are the same term"""
+    if op in ("==", "!="):
+        ca = is_t(a, "const") or (is_t(a, "tuple") and not a[1])
+        cb = is_t(b, "const") or (is_t(b, "tuple") and not b[1])
+        if (ca and not cb) or (ca == cb and repr(b) < repr(a)):
+            a, b = b, a
+    return ("cmp", op, a, b)
+
+
 def mk_phi(test, a, b):
     if a == b:
         return a
+    if is_t(test, "un") and test[1] == "not":
+        # `x if not c else y` is `y if c else x`: one canonical form, whatever polarity the source spells
+        return mk_phi(test[2], b, a)
     if is_t(a, "tuple") and is_t(b, "tuple") and len(a[1]) == len(b[1]) and not _has_star(a) and not _has_star(b):
         return mk_tuple(mk_phi(test, x, y) for x, y in zip(a[1], b[1]))
     return ("phi", test, a, b)
@@ -476,8 +490,12 @@ class _Ctx:
             return env
         if isinstance(st, ast.If):
             test = self.expr(st.test, env)
-            e1 = self.block(st.body, dict(env), conds + ((test, True),))
-            e2 = self.block(st.orelse, dict(env), conds + ((test, False),)) if st.orelse else dict(env)
+            body, orelse = st.body, st.orelse
+            while is_t(test, "un") and test[1] == "not":
+                # `if not c: A else: B` is `if c: B else: A` - one canonical polarity for path conditions and joins
+                test, body, orelse = test[2], orelse, body
+            e1 = self.block(body, dict(env), conds + ((test, True),)) if body else dict(env)
+            e2 = self.block(orelse, dict(env), conds + ((test, False),)) if orelse else dict(env)
             return _join(test, e1, e2)
         if isinstance(st, ast.Match):
             return self.match(st, env, conds)
@@ -571,7 +589,7 @@ class _Ctx:
                 env[pat.name] = subj
             return t
         if isinstance(pat, ast.MatchValue):
-            return ("cmp", "==", subj, self.expr(pat.value, env))
+            return mk_cmp("==", subj, self.expr(pat.value, env))
         if isinstance(pat, ast.MatchSingleton):
             return ("is", subj, C(pat.value))
         if isinstance(pat, ast.MatchClass):
@@ -703,7 +721,7 @@ class _Ctx:
                     if name == "is not":
                         t = ("un", "not", t)
                 else:
-                    t = ("cmp", name, left, right)
+                    t = mk_cmp(name, left, right)
                 parts.append(t)
                 left = right
             return parts[0] if len(parts) == 1 else ("bool", "and", tuple(parts))
